@@ -1,4 +1,5 @@
 import LcModel.Proofs.Lemmas
+import LcModel.Cbmt.Witness
 import LcModel.Mmr.Witness
 /-!
 # C02 — only data committed by a proven header is ever indexed or served as fetched
@@ -580,6 +581,42 @@ theorem old_rule_accepts_twin :
 example : Mmr.Honest Mmr.Witness.hdrAt Mmr.Witness.root2 ∧
     Mmr.verifyMmrProof true 2 Mmr.Witness.root2 [Mmr.Witness.d 0] [Mmr.Witness.hd 1] = .ok true :=
   ⟨Mmr.Witness.root2_honest, Mmr.Witness.wrapper_honest⟩
+
+
+/-! ## what the transactions Merkle verdict means (`merkle-cbt` `MerkleProof::root`, the guard of
+`SendTransactionsProofProcess::execute`)
+
+The `Cbmt` layer models the check of one filtered block - the repository's `required_lemmas_count`
+guard, `MerkleProof::root` with its queue loop and `u32` index arithmetic, `MergeByte32`,
+`merkle_root` - over blake2b as a free term algebra; tied to the code by `lcverif CBMT`. -/
+
+/-- **the Merkle verdict binds the transactions to the header.**  If the header's transactions
+root is the hash of (raw transactions root, witnesses root), every transaction hash of an accepted
+filtered block occurs in the raw transactions root - for all indices, lemmas and hashes, in any
+order, with duplicates. -/
+theorem merkle_binds_transactions (rawRoot wr witnessesRoot : Cbmt.T) (indices : List Nat)
+    (lemmas txHashes : List Cbmt.T)
+    (h : Cbmt.checkFilteredBlock (Cbmt.merge rawRoot wr) witnessesRoot indices lemmas txHashes
+      = .ok true) :
+    ∀ t ∈ txHashes, Cbmt.Sub t rawRoot :=
+  Cbmt.checkFilteredBlock_sound rawRoot wr witnessesRoot indices lemmas txHashes h
+
+/-- **witness of the defect repaired by fb17202**: before the guard, a made-up transaction next to
+the only transaction of a block (no lemma needed, the library skips the node it has no lemma for)
+was accepted although it does not occur in the transactions root; the repaired check rejects it. -/
+theorem old_rule_accepts_unproved_transaction :
+    Cbmt.checkFilteredBlockCfg false Cbmt.Witness.troot Cbmt.Witness.wroot [0, 5] []
+      [Cbmt.Witness.x, Cbmt.Witness.c] = .ok true ∧
+    ¬ Cbmt.Sub Cbmt.Witness.x Cbmt.Witness.c ∧
+    Cbmt.checkFilteredBlock Cbmt.Witness.troot Cbmt.Witness.wroot [0, 5] []
+      [Cbmt.Witness.x, Cbmt.Witness.c] = .ok false :=
+  ⟨Cbmt.Witness.old_check_accepts, Cbmt.Witness.x_not_in_root, Cbmt.Witness.new_check_rejects⟩
+
+/-- the premise of `merkle_binds_transactions` is satisfiable: the honest proof of the only
+transaction of a block -/
+example : Cbmt.checkFilteredBlock (Cbmt.merge Cbmt.Witness.c Cbmt.Witness.wroot) Cbmt.Witness.wroot
+    [0] [] [Cbmt.Witness.c] = .ok true :=
+  Cbmt.Witness.honest_single
 
 
 end C02
